@@ -9,20 +9,12 @@ Open Scope N_scope.
 Definition wf_host (h : str) : Prop :=
   h <> [] /\ first_is DOT h = false /\ (forall p q, h <> p ++ DOT :: DOT :: q).
 
-(* the three places where the jar is laxer than RFC 6265 (each is a `_refuted` witness in Props/C16.v):
-   more than one trailing slash in the cookie path; an unparseable Max-Age next to a valid Expires;
-   an Expires value the code does not use (generated `expires_value_used`: the epoch itself) *)
-Definition morsel_ok (u : url) (m : morsel) : Prop :=
-  slash_ok (cookie_path u m) /\
-  match m_maxage m, m_expires m with
-  | MA_invalid, EX_val _ => False
-  | MA_none, EX_val t => expires_value_used t = true
-  | _, _ => True
-  end.
-
+(* the only hypothesis on a history: every Set-Cookie batch comes from a well-formed response host.  (With a
+   host starting with "." the jar strips that dot from the host-only domain too, and with an empty label inside,
+   save+load moves a cookie of domain ".x" to "x"; such hosts do not resolve and are excluded.) *)
 Definition op_ok (o : op) : Prop :=
   match o with
-  | OSet u ms => wf_host (u_host u) /\ Forall (morsel_ok u) ms
+  | OSet u ms => wf_host (u_host u)
   | _ => True
   end.
 
@@ -50,14 +42,17 @@ Definition St (unsafe : bool) (j : jar) (s : rstore) : Prop :=
 
 (* ------------------------------------------------------------ update_cookies *)
 
+Definition via_expires (j1 : jar) (m : morsel) (k : key) : jar :=
+  match m_expires m with
+  | EX_val t => if expires_value_used t then expire_cookie j1 t k else j1
+  | _ => j1
+  end.
+
 Definition stage_expiry (j1 : jar) (m : morsel) (now : Z) (k : key) : jar :=
   match m_maxage m with
   | MA_val dl => expire_cookie j1 (max_age_deadline now dl) k
-  | MA_invalid => j1
-  | MA_none => match m_expires m with
-               | EX_val t => if expires_value_used t then expire_cookie j1 t k else j1
-               | _ => j1
-               end
+  | MA_invalid => if invalid_max_age_uses_expires then via_expires j1 m k else j1
+  | MA_none => via_expires j1 m k
   end.
 
 Definition stored (u : url) (m : morsel) : cookie :=
@@ -76,48 +71,47 @@ Lemma update1_unfold u now j m :
        set_cookies j2 (upsert k (stored u m) (j_cookies j2)).
 Proof. reflexivity. Qed.
 
+Ltac stage_cases :=
+  unfold stage_expiry, via_expires;
+  repeat match goal with
+         | |- context [match m_maxage ?m with _ => _ end] => destruct (m_maxage m)
+         | |- context [match m_expires ?m with _ => _ end] => destruct (m_expires m)
+         | |- context [if invalid_max_age_uses_expires then _ else _] => destruct invalid_max_age_uses_expires
+         | |- context [if expires_value_used ?t then _ else _] => destruct (expires_value_used t)
+         end.
+
 Lemma stage_expiry_cookies j m now k : j_cookies (stage_expiry j m now k) = j_cookies j.
-Proof.
-  unfold stage_expiry. destruct (m_maxage m); [destruct (m_expires m) as [| |t]; try reflexivity;
-    destruct (expires_value_used t); [apply expire_cookie_cookies|reflexivity] | reflexivity | apply expire_cookie_cookies].
-Qed.
+Proof. stage_cases; try reflexivity; apply expire_cookie_cookies. Qed.
 
 Lemma stage_expiry_host_only j m now k : j_host_only (stage_expiry j m now k) = j_host_only j.
-Proof.
-  unfold stage_expiry. destruct (m_maxage m); [destruct (m_expires m) as [| |t]; try reflexivity;
-    destruct (expires_value_used t); [apply expire_cookie_host_only|reflexivity] | reflexivity | apply expire_cookie_host_only].
-Qed.
+Proof. stage_cases; try reflexivity; apply expire_cookie_host_only. Qed.
 
 Lemma stage_expiry_unsafe j m now k : j_unsafe (stage_expiry j m now k) = j_unsafe j.
-Proof.
-  unfold stage_expiry. destruct (m_maxage m); [destruct (m_expires m) as [| |t]; try reflexivity;
-    destruct (expires_value_used t); [apply expire_cookie_unsafe|reflexivity] | reflexivity | apply expire_cookie_unsafe].
-Qed.
+Proof. stage_cases; try reflexivity; apply expire_cookie_unsafe. Qed.
 
 Lemma stage_expiry_covers j m now k : heap_covers j -> heap_covers (stage_expiry j m now k).
-Proof.
-  intro H. unfold stage_expiry. destruct (m_maxage m); [destruct (m_expires m) as [| |t]; try exact H;
-    destruct (expires_value_used t); [apply expire_cookie_covers; exact H|exact H] | exact H | apply expire_cookie_covers; exact H].
-Qed.
+Proof. intro H. stage_cases; try exact H; apply expire_cookie_covers; exact H. Qed.
 
 Lemma stage_expiry_other j m now k k' : k' <> k ->
   lookup k' (j_expirations (stage_expiry j m now k)) = lookup k' (j_expirations j).
-Proof.
-  intro N. unfold stage_expiry. destruct (m_maxage m); [destruct (m_expires m) as [| |t]; try reflexivity;
-    destruct (expires_value_used t); [apply expire_cookie_lookup_other; exact N|reflexivity] | reflexivity
-    | apply expire_cookie_lookup_other; exact N].
-Qed.
+Proof. intro N. stage_cases; try reflexivity; apply expire_cookie_lookup_other; exact N. Qed.
 
-(* the jar's deadline for the stored cookie is never later than the RFC expiry-time *)
-Lemma stage_expiry_deadline j u m now k : morsel_ok u m ->
+(* the jar's deadline for the stored cookie is never later than the RFC expiry-time.  This is where the three
+   repaired defects lived: it needs the generated `expires_value_used t = true` (the parsed Expires is used
+   whatever its value, also 0) and `invalid_max_age_uses_expires = true`. *)
+Lemma stage_expiry_deadline j m now k :
   forall e, rfc_expiry m now = Some e ->
   exists w, lookup k (j_expirations (stage_expiry j m now k)) = Some w /\ (w <= e)%Z.
 Proof.
-  intros [_ Hok] e He. unfold rfc_expiry in He. unfold stage_expiry.
+  intros e He. unfold rfc_expiry in He. unfold stage_expiry, via_expires.
+  assert (U : forall t, expires_value_used t = true) by reflexivity.
+  assert (V : invalid_max_age_uses_expires = true) by reflexivity.
+  rewrite V.
   destruct (m_maxage m) as [| |dl].
-  - destruct (m_expires m) as [| |t]; try discriminate. inversion He. subst. rewrite Hok.
+  - destruct (m_expires m) as [| |t]; try discriminate. inversion He. subst. rewrite U.
     exists e. split; [apply expire_cookie_lookup_same|lia].
-  - destruct (m_expires m) as [| |t]; try discriminate. contradiction.
+  - destruct (m_expires m) as [| |t]; try discriminate. inversion He. subst. rewrite U.
+    exists e. split; [apply expire_cookie_lookup_same|lia].
   - inversion He. subst. exists (max_age_deadline now dl). split; [apply expire_cookie_lookup_same|].
     unfold max_age_deadline. lia.
 Qed.
@@ -161,7 +155,7 @@ Qed.
 
 (* storing an accepted cookie: jar and reference store stay related *)
 Lemma accept_step j1 s u m now d ho :
-  Inv j1 -> Sim j1 s -> d <> [] -> first_is DOT d = false -> morsel_ok u m ->
+  Inv j1 -> Sim j1 s -> d <> [] -> first_is DOT d = false ->
   (ho = true -> mem_dn (d, m_name m) (j_host_only j1) = true) ->
   let k := (d, rstrip SLASH (cookie_path u m), m_name m) in
   let j2 := stage_expiry j1 m now k in
@@ -170,14 +164,14 @@ Lemma accept_step j1 s u m now d ho :
               r_host_only := ho; r_secure := m_secure m; r_expiry := rfc_expiry m now |} in
   Inv j' /\ Sim j' (c :: filter (fun x => negb (r_same_id x c)) s).
 Proof.
-  intros [HE HC] HS Hd Hfd Hok Hho k j2 j' c.
+  intros [HE HC] HS Hd Hfd Hho k j2 j' c.
   assert (Cj2 : j_cookies j2 = j_cookies j1) by apply stage_expiry_cookies.
   split.
   - split.
     + intros kc Hin. unfold j' in Hin. simpl in Hin. apply In_upsert in Hin. destruct Hin as [->|[Hin _]].
       * unfold entry_ok, k, stored. simpl. split; [reflexivity|]. split.
         { unfold cookie_path. destruct (first_is SLASH (m_path m)) eqn:F; [exact F|apply default_path_first]. }
-        split; [apply Hok|]. split; assumption.
+        split; assumption.
       * apply HE. rewrite <- Cj2. exact Hin.
     + unfold j'. intros k0 w L. simpl in *. apply (stage_expiry_covers j1 m now k HC). exact L.
   - intros k0 c0 Hin. unfold j' in Hin. simpl in Hin. apply In_upsert in Hin. destruct Hin as [E|[Hin N]].
@@ -185,7 +179,7 @@ Proof.
       unfold witness, c, k, stored, k_name, k_dom, flagged. simpl.
       repeat (split; [reflexivity|]). split.
       * intro H. unfold j2. rewrite stage_expiry_host_only. apply Hho. exact H.
-      * intros e He. apply (stage_expiry_deadline j1 u m now k Hok e He).
+      * intros e He. apply (stage_expiry_deadline j1 m now k e He).
     + rewrite Cj2 in Hin. simpl in N.
       destruct (HS k0 c0 Hin) as [r [Hr [A [B [C [D [E [F G]]]]]]]].
       exists r. split.
@@ -204,10 +198,10 @@ Proof.
 Qed.
 
 Lemma update1_sim u now j s m unsafe :
-  wf_host (u_host u) -> morsel_ok u m -> St unsafe j s ->
+  wf_host (u_host u) -> St unsafe j s ->
   St unsafe (update1 u now j m) (rfc_set1 u now s m).
 Proof.
-  intros Hwf Hok [HI [HS HU]].
+  intros Hwf [HI [HS HU]].
   pose proof Hwf as [Hne [Hfd Hdd]].
   assert (I1 : Inv (mark j u m)) by (apply Inv_mark; exact HI).
   assert (S1 : Sim (mark j u m) s) by (eapply sim_sub; [exact HS|apply Sub_mark]).
@@ -215,7 +209,7 @@ Proof.
   destruct (effective_domain_cases u m Hwf) as [[Hm [He Hr]]|[Hm [He Hr]]]; rewrite He.
   - (* no usable Domain attribute: host-only cookie for the response host *)
     rewrite Hr. simpl is_nil. cbv iota. rewrite is_domain_match_refl. rewrite andb_false_r.
-    destruct (accept_step (mark j u m) s u m now (u_host u) true I1 S1 Hne Hfd Hok) as [A B].
+    destruct (accept_step (mark j u m) s u m now (u_host u) true I1 S1 Hne Hfd) as [A B].
     { intros _. apply mark_flag. exact Hm. }
     split; [exact A|]. split; [exact B|].
     simpl. rewrite stage_expiry_unsafe, mark_unsafe. exact HU.
@@ -237,11 +231,11 @@ Proof.
 Qed.
 
 Lemma fold_update1_sim u now unsafe ms : forall j s,
-  wf_host (u_host u) -> Forall (morsel_ok u) ms -> St unsafe j s ->
+  wf_host (u_host u) -> St unsafe j s ->
   St unsafe (fold_left (update1 u now) ms j) (fold_left (rfc_set1 u now) ms s).
 Proof.
-  induction ms as [|m ms IH]; intros j s Hwf Hok H; simpl; [exact H|].
-  inversion Hok; subst. apply IH; try assumption. apply update1_sim; assumption.
+  induction ms as [|m ms IH]; intros j s Hwf H; simpl; [exact H|].
+  apply IH; try assumption. apply update1_sim; assumption.
 Qed.
 
 Lemma St_sub unsafe j j' s : St unsafe j s -> Sub j' j -> Inv j' -> j_unsafe j' = j_unsafe j -> St unsafe j' s.
@@ -250,12 +244,12 @@ Proof.
 Qed.
 
 Lemma update_sim unsafe j s u ms now :
-  wf_host (u_host u) -> Forall (morsel_ok u) ms -> St unsafe j s ->
+  wf_host (u_host u) -> St unsafe j s ->
   St unsafe (update j u ms now) (rfc_set unsafe s u ms now).
 Proof.
-  intros Hwf Hok H. pose proof H as [_ [_ HU]]. unfold update, rfc_set. rewrite HU.
+  intros Hwf H. pose proof H as [_ [_ HU]]. unfold update, rfc_set. rewrite HU.
   destruct (negb unsafe && is_ip (u_host u)); [exact H|].
-  pose proof (fold_update1_sim u now unsafe ms j s Hwf Hok H) as H2.
+  pose proof (fold_update1_sim u now unsafe ms j s Hwf H) as H2.
   eapply St_sub; [exact H2|apply do_expiration_sub|apply Inv_do_expiration; apply H2|apply do_expiration_unsafe].
 Qed.
 
@@ -337,10 +331,10 @@ Proof.
   destruct H' as [[HE' HC'] [HS' HU']].
   destruct Hin as [[k [c [Hg E]]]|[Ip [d [p [k [c [Hd [Hp [Hg [Hsend E]]]]]]]]]].
   - exfalso. apply group_In in Hg. destruct Hg as [Hin [Dm _]].
-    destruct (HE' _ Hin) as [_ [_ [_ [Ne _]]]]. apply Ne. exact Dm.
+    destruct (HE' _ Hin) as [_ [_ [Ne _]]]. apply Ne. exact Dm.
   - apply group_In in Hg. destruct Hg as [Hin [Dm Pk]].
     destruct (HS' k c Hin) as [r [Hr [A [B [C [D [Es [F G]]]]]]]].
-    destruct (HE' _ Hin) as [P1 [P2 [P3 [P4 P5]]]]. simpl in P1, P2, P3, P4, P5.
+    destruct (HE' _ Hin) as [P1 [P2 [P4 P5]]]. simpl in P1, P2, P4, P5.
     unfold emit in E. simpl in E. inversion E. subst n v.
     unfold rfc_filter. apply in_map_iff. exists r. split; [rewrite A, B; reflexivity|].
     apply filter_In. split; [exact Hr|].
@@ -356,9 +350,8 @@ Proof.
         { destruct Hd as [Hd|[]]. left. congruence. }
         { apply dot_suffix_domain_match; [rewrite Dm; exact Hd|exact P4|exact I]. }
     + (* path *)
-      rewrite D. apply rfc_path_match_spec. apply jar_path_sound; [exact P3| |].
-      * rewrite <- P1, Pk. exact Hp.
-      * apply negb_true_iff in Hlen. apply Nat.ltb_ge in Hlen. exact Hlen.
+      rewrite D. apply rfc_path_match_spec. apply jar_path_sound; [|exact Hlen].
+      rewrite <- P1, Pk. exact Hp.
     + (* secure *)
       rewrite Es. destruct (c_secure c), (u_secure u); simpl in *; auto.
     + (* not expired *)
@@ -432,7 +425,7 @@ Lemma update1_reload now jk k0 c0 ho : entry_ok (k0, c0) ->
   (forall x, mem_dn x (j_host_only jk) = true -> mem_dn x (j_host_only ju) = true) /\
   (ho = true -> mem_dn (k_dom k0, k_name k0) (j_host_only ju) = true).
 Proof.
-  intros [P1 [P2 [P3 [P4 P5]]]]. simpl in P1, P2, P3, P4, P5. cbv zeta.
+  intros [P1 [P2 [P4 P5]]]. simpl in P1, P2, P4, P5. cbv zeta.
   rewrite update1_unfold. cbv zeta. rewrite (reload_effective_domain k0 c0 ho P4 P5).
   change (u_host (reload_url k0)) with (k_dom k0).
   rewrite is_domain_match_refl, andb_false_r.
@@ -532,7 +525,7 @@ Lemma step_sim unsafe j s now o : op_ok o -> St unsafe j s ->
   end.
 Proof.
   intros Hok H. destruct o as [u ms|dt| |d| |u]; simpl.
-  - destruct Hok as [Hwf Hms]. split; [apply update_sim; assumption|auto].
+  - split; [apply update_sim; assumption|auto].
   - auto.
   - split; [apply clear_all_sim; apply H|auto].
   - split; [apply clear_domain_sim; exact H|auto].
@@ -573,7 +566,7 @@ Proof.
   constructor; assumption.
 Qed.
 
-Theorem no_leak_partial unsafe t0 ops : Forall op_ok ops ->
+Theorem no_leak unsafe t0 ops : Forall op_ok ops ->
   outputs_sound (snd (run (empty_jar unsafe, t0) ops)) (snd (rfc_run unsafe ([], t0) ops)).
 Proof.
   intro H. apply run_sim; [exact H|].
